@@ -91,12 +91,20 @@ def inline_inputs():
         "custom_keys.json": _custom_json(),
         "species.extxyz": "2\nProperties=species:S:1:pos:R:3 pbc=\"F F F\"\nH 0.0 0.0 0.0\nF 0.0 0.0 0.9\n",
         "labels.extxyz": "3\nProperties=Z:I:1:species:S:1:pos:R:3 pbc=\"F F F\"\n6 CA 0.0 0.0 0.0\n8 O 0.0 0.0 1.2\n1 H 0.9 0.0 -0.5\n",
+        # inputs whose arithmetic overflows or divides by zero: the CLI traps floating-point errors, the API does not - the
+        # CLI may fail where the API succeeds (and says so), it must not succeed with other content
+        "CHGCAR.flat": "flat cell\n   1.0\n 1.0 0.0 0.0\n 2.0 0.0 0.0\n 0.0 0.0 1.0\n   H\n   1\nDirect\n 0.0 0.0 0.0\n\n 1 1 1\n 1.0\n",
+        "far.xyz": "2\nfar away\nH 1.0e308 0.0 0.0\nH 0.0 0.0 0.7\n",
     }
 
 
 INLINE_PAIRS = [("custom_keys.json", "json_qcschema", ["o.json", "o.xyz"]), ("species.extxyz", None, ["o.xyz", "o.sdf"]),
-                ("labels.extxyz", None, ["o.xyz", "o.pdb", "o.sdf"])]
+                ("labels.extxyz", None, ["o.xyz", "o.pdb", "o.sdf"]), ("CHGCAR.flat", None, ["o.cube", "o.xyz"]),
+                ("far.xyz", None, ["o.sdf", "o.xyz", "o.pdb"])]
 _GUARD = None
+import signal as _sig
+
+_OLD_SIGPIPE = _sig.getsignal(_sig.SIGPIPE)
 PRE = b"PRE-EXISTING TARGET\nsecond line\n"
 
 
@@ -245,6 +253,10 @@ def run_main(w, data):
     finally:
         sys.argv = old_argv
         np.seterr(**old_err)
+        import signal as _signal
+
+        if _signal.getsignal(_signal.SIGPIPE) is not _OLD_SIGPIPE:
+            _signal.signal(_signal.SIGPIPE, _OLD_SIGPIPE)  # (a CLI may change it for its own process; the worker goes on)
     text = err.getvalue()
     if exc is not None:
         try:
@@ -405,6 +417,8 @@ def gen_workload(rng, tier):
                 w["prelude"][-1]["suspend"] = True
     if hasattr(FORMAT_MODULES[mod], "load_many") and rng.random() < 0.5:
         w["many"] = True
+    elif not hasattr(FORMAT_MODULES[mod], "load_many") and rng.random() < 0.12:
+        w["many"] = True  # -m with a format that has no load_many: the API raises FileFormatError before anything is opened
     if infmt is None and rng.random() < 0.25:
         w["infmt"] = mod  # explicit although inferable
     if w["outfmt"] is None and rng.random() < 0.25:
